@@ -35,7 +35,9 @@ RULE = ("three case kinds from one PRNG: (lcs) integer lists old/new, new derive
         "transformations, only the steps that succeed count. non-trivial = lists differ / graph has >= 2 compartments / "
         "at least one transformation succeeded; (branch) 2-3 sibling derivations (1-2 transformations each, mostly ones that change the "
         "number of compartments) from ONE parent object, parents mostly with an active numeric CMT data column; distinct = distinct case JSON; every run also contains the full "
-        "product {absorption shape} x {lag time + bioavailability in either order} x {17 final transformations} (204 light histories)")
+        "product {absorption shape} x {lag time + bioavailability in either order} x {17 final transformations} (204 light histories; the 136 with a depot in the quick tier) and "
+        "{9 start models read from files whose data carry CMT and/or RATE columns (zero / mixed)} x {7 column-rewriting transformations + one "
+        "two-step walk}, written to disk and read back (72 histories)")
 TRUSTED = [
     "Lean 4.33 kernel; axioms propext, Quot.sound, Classical.choice only (audited per theorem each run)",
     "hand-written models PharmpyModel/C02/{Lcs,Advan,PkConv}.lean tied to lcs.py/update.py/statements.py by the correspondence run",
@@ -91,8 +93,13 @@ COVOPS = [
     ["set_first_order_absorption", {}], ["set_instantaneous_absorption", {}],
 ]
 STARTS = ["pheno", "moxo", "basic_iv", "basic_oral", "a1t1", "a3t3", "a3t1", "a4t1", "a3t4", "a4t4", "a2t2",
-          "cmt_a1t2", "cmt_a2t2", "cmt_a4t4"]
-CMT_STARTS = ["cmt_a1t2", "cmt_a2t2", "cmt_a4t4"]
+          "cmt_a1t2", "cmt_a2t2", "cmt_a4t4", "rate0_a1t2", "rate0_a2t2", "cmtrate0_a2t2", "cmtrate0_a1t2", "ratemix_a1t2",
+          "cmtratemix_a2t2"]
+CMT_STARTS = ["cmt_a1t2", "cmt_a2t2", "cmt_a4t4", "rate0_a1t2", "rate0_a2t2", "cmtrate0_a2t2", "cmtrate0_a1t2", "ratemix_a1t2",
+              "cmtratemix_a2t2"]       # models read from files whose data carry CMT and/or RATE columns
+DATA_FINALS = [["set_zero_order_absorption", {}], ["set_seq_zo_fo_absorption", {}], ["set_first_order_absorption", {}],
+               ["set_instantaneous_absorption", {}], ["set_transit_compartments", {"n": 1}], ["add_peripheral_compartment", {}],
+               ["set_michaelis_menten_elimination", {}]]
 COUNT_CHANGING = [["set_transit_compartments", {"n": 1}], ["set_transit_compartments", {"n": 2}], ["add_peripheral_compartment", {}],
                   ["remove_peripheral_compartment", {}], ["set_first_order_absorption", {}], ["set_instantaneous_absorption", {}],
                   ["set_zero_order_absorption", {}], ["set_seq_zo_fo_absorption", {}], ["set_peripheral_compartments", {"n": 2}]]
@@ -122,7 +129,7 @@ SHAPES = {
 
 
 def budget(tier):
-    return int(os.environ.get("VERIF_BUDGET", 0)) or {"quick": 240, "thorough": 4500}[tier]
+    return int(os.environ.get("VERIF_BUDGET", 0)) or {"quick": 160, "thorough": 4500}[tier]
 
 
 # ---------------------------------------------------------------- generation
@@ -213,22 +220,36 @@ FINALS = [["set_zero_order_absorption", {}], ["set_first_order_absorption", {}],
 
 def gen_dose_history(rng):
     """absorption shape x dosing attributes (lag time, bioavailability, in either order) x 1-2 further transformations."""
-    start = rng.choice(["pheno", "a2t2", "a1t1", "a4t4", "a3t4", "moxo", "cmt_a2t2", "cmt_a1t2", "basic_oral", "basic_iv"])
+    start = rng.choice(["pheno", "a2t2", "a1t1", "a4t4", "a3t4", "moxo", "basic_oral", "basic_iv"] + CMT_STARTS)
     ops = list(rng.choice(ABS_SHAPES)) + list(rng.choice(DOSE_ATTRS)) + [rng.choice(FINALS) for _ in range(rng.randint(1, 2))]
     return {"kind": "history", "start": start, "ops": ops, "seed": rng.randrange(1 << 30)}
 
 
-def dose_product_cases():
+def dose_product_cases(tier="thorough"):
     """Deterministic part of every run: every absorption shape with a depot, carrying BOTH a lag time and a
     bioavailability (either order), followed by every final transformation; checked after the last step only."""
     out = []
     n = 0
-    for shape in ABS_SHAPES:
+    for shape in (ABS_SHAPES if tier == "thorough" else [sh for sh in ABS_SHAPES if sh and sh != ABS_SHAPES[3]]):
         for attrs in DOSE_ATTRS[3:]:
             for fin in FINALS:
                 n += 1
                 out.append({"kind": "history", "start": "pheno" if n % 2 else "a1t1", "ops": list(shape) + list(attrs) + [fin],
                             "light": True, "seed": 100000 + n})
+    return out
+
+
+def data_product_cases():
+    """Deterministic part of every run: every start model whose data files carry CMT/RATE columns x every transformation that
+    rewrites those columns (one and two steps), written to disk and read back."""
+    out = []
+    n = 0
+    for st in CMT_STARTS:
+        for fin in DATA_FINALS:
+            n += 1
+            out.append({"kind": "history", "start": st, "ops": [fin], "seed": 200000 + n})
+        n += 1
+        out.append({"kind": "history", "start": st, "ops": [DATA_FINALS[0], DATA_FINALS[2]], "seed": 200000 + n})
     return out
 
 
@@ -325,7 +346,7 @@ def gen_cases(rng, n, tier):
             out.append(gen_dose_history(rng))
         else:
             out.append(gen_branch(rng))
-    return out + dose_product_cases()
+    return out + dose_product_cases(tier) + data_product_cases()
 
 
 def corpus_cases():
@@ -507,7 +528,8 @@ def start_model(name):
     """A start model with a DataFrame of its own (a case must not see data another case's bug wrote into)."""
     m = _start_model(name)
     if m.dataset is not None:
-        m = m.replace(dataset=m.dataset.copy())
+        # keep the datainfo (and with it datainfo.path: the model stays "read from this file")
+        m = m.replace(dataset=m.dataset.copy(), datainfo=m.datainfo)
     return m
 
 
@@ -520,20 +542,31 @@ def _start_model(name):
         m = pm.convert_model(pm.create_basic_pk_model("iv"), "nonmem")
     elif name == "basic_oral":
         m = pm.convert_model(pm.create_basic_pk_model("oral"), "nonmem")
-    elif name.startswith("cmt_"):
-        # dataset with an active numeric CMT column: doses into compartment 1, observations of the central compartment
-        advan, trans, pk, thetas = CUSTOM[name]
+    elif name.split("_")[0] in ("cmt", "rate0", "cmtrate0", "ratemix", "cmtratemix"):
+        # model READ FROM FILES whose data already carry dosing columns: an active numeric CMT column (doses into
+        # compartment 1, observations of the central compartment), a RATE column (all zero = bolus data carrying a RATE
+        # column, or mixed: a real infusion rate on some dose records), or both
+        cols, base = name.split("_")
+        advan, trans, pk, thetas = CUSTOM["cmt_" + base]
         d = scratch_root() / "c02-starts"
         d.mkdir(parents=True, exist_ok=True)
         obs = 1 if advan == "ADVAN1" else 2
-        lines = ["ID,TIME,AMT,DV,CMT,WGT"]
+        has_cmt, has_rate, mixed = "cmt" in cols, "rate" in cols, "mix" in cols
+        header = ["ID", "TIME", "AMT", "DV"] + (["CMT"] if has_cmt else []) + (["RATE"] if has_rate else []) + ["WGT"]
+        lines = [",".join(header)]
         for i in (1, 2, 3):
-            lines.append(f"{i},0,100,0,1,{70 + i}")
-            for t in (1, 2, 4, 8):
-                lines.append(f"{i},{t},0,{round(10.0 / t + i, 3)},{obs},{70 + i}")
+            for t in (0, 1, 2, 4, 8):
+                dose = t == 0
+                row = [i, t, 100 if dose else 0, 0 if dose else round(10.0 / t + i, 3)]
+                if has_cmt:
+                    row.append(1 if dose else obs)
+                if has_rate:
+                    row.append(50 if (dose and mixed and i != 2) else 0)
+                row.append(70 + i)
+                lines.append(",".join(str(x) for x in row))
         (d / f"{name}.csv").write_text("\n".join(lines) + "\n")
         code = CODE_TMPL.format(name=name, data=f"{name}.csv", advan=advan, trans=trans, pk=pk, thetas=thetas)
-        code = code.replace("$INPUT ID TIME AMT WGT APGR DV FA1 FA2", "$INPUT ID TIME AMT DV CMT WGT")
+        code = code.replace("$INPUT ID TIME AMT WGT APGR DV FA1 FA2", "$INPUT " + " ".join(header))
         (d / f"{name}.mod").write_text(code)
         m = pm.read_model(d / f"{name}.mod")
     else:
@@ -1161,6 +1194,11 @@ def track_origin(origin, model, name):
             origin[kind_] = None
     if des_map_stale(model):
         origin["desmap"] = True
+    cs = model.statements.ode_system
+    if cs is not None and len({n.name for n in cs._g.nodes if n != output}) < len(cs._g.nodes) - 1:
+        origin["dup"] = origin.get("dup") or name
+    else:
+        origin["dup"] = None
     return dict(origin)
 
 
@@ -1178,15 +1216,26 @@ def witness_class(model, generic, what="", df=None, origin=None):
                            or any(n != output and cs._g.out_degree(n) == 0 for n in cs._g.nodes)):
         return "in-memory-system-has-dead-end-compartment"
     if cs is not None and len({n.name for n in cs._g.nodes if n != output}) < len(cs._g.nodes) - 1:
-        return "object-has-duplicate-compartments"
+        return f"duplicate-compartments-left-by-{(origin or {}).get('dup') or 'unknown'}"
+    if generic.startswith("twin-") and cs is not None:
+        import re as _re2
+        for st_ in model.statements.before_odes:
+            if isinstance(st_, Assignment) and _re2.fullmatch(r"K\d+T?\d+", str(st_.symbol)) \
+                    and _re2.fullmatch(r"K\d+T?\d+", str(st_.expression)):
+                return "rate-alias-captured-by-renumbered-rate-name"
     ncode = code_compartments(model)
     if cs is not None and ncode is not None and ncode < len(cs.compartment_names) and \
             (generic.endswith(("ode-size", "ode-rhs", "value-dv", "value-F")) or generic == "model-record-order"):
         return "code-has-fewer-compartments-than-object"
     if generic.startswith(("disk-", "cmt-")) and cs is not None and (des_map_stale(model) or (origin or {}).get("desmap")):
         return "stale-compartment-map-on-des-path"
-    if generic == "rate-column-routing" and cs is not None and cstream.get_records("DES"):
-        return "rate-column-kept-on-des-path"
+    if cs is not None and cstream.get_records("DES") and (generic == "rate-column-routing" or generic.endswith(("dose-routing", "dose-parameters"))):
+        try:
+            bolus = type(cs.dosing_compartments[0].doses[0]).__name__ == "Bolus"
+        except (ValueError, IndexError):
+            bolus = False
+        if bolus and df is not None and "RATE" in df.columns and (df["RATE"].astype(float) != 0).any():
+            return "rate-column-kept-on-des-path"
     if generic.startswith(("disk-", "cmt-dose")) and doses_left_on_central(model, df):
         return "cmt-doses-left-on-central"
     if generic.endswith("dose-parameters") and ("D1.0" in what or "R1.0" in what or "D2.0" in what or "R2.0" in what):
@@ -1297,8 +1346,11 @@ def dose_updater_k(drv, model, k, tags, label, rng):
     tags.append("k:update_lag_time")
 
 
-def reread_class(model, route):
+def reread_class(model, route, origin=None):
     """Witness class of a generated control stream that pharmpy cannot read back."""
+    cs0 = model.statements.ode_system
+    if cs0 is not None and len({n.name for n in cs0._g.nodes if n != output}) < len(cs0._g.nodes) - 1:
+        return f"duplicate-compartments-left-by-{(origin or {}).get('dup') or 'unknown'}"
     solver = model.execution_steps[0].solver if len(model.execution_steps) > 0 else None
     des = model.internals.control_stream.get_records("DES")
     cs = model.statements.ode_system
@@ -1400,7 +1452,7 @@ def run_history(case, drv):
                 m2 = pm.read_model_from_string(code)
                 B = meaning(m2)
             except Exception as e:
-                mon.append({"cls": reread_class(model, "string"), "what": f"{label}: read_model_from_string(model.code) raised {type(e).__name__}: {e}"[:400]})
+                mon.append({"cls": reread_class(model, "string", model_origin), "what": f"{label}: read_model_from_string(model.code) raised {type(e).__name__}: {e}"[:400]})
                 B = None
             if B is not None and twin is not None:
                 # the same history on a format-neutral copy of the start model (no NONMEM renaming in update_source):
@@ -1434,10 +1486,11 @@ def run_history(case, drv):
                     m3 = pm.read_model(path)
                     C = meaning(m3)
                 except Exception as e:
-                    mon.append({"cls": reread_class(model, "disk"), "what": f"{label}: write_model/read_model raised {type(e).__name__}: {e}"[:400]})
+                    mon.append({"cls": reread_class(model, "disk", model_origin), "what": f"{label}: write_model/read_model raised {type(e).__name__}: {e}"[:400]})
                     C = None
                 if C is not None:
                     tags.append("disk-roundtrip")
+                    check_data_file(model, m3.dataset, label, mon, tags)
                     check_routing(model, m3.dataset, label, mon, tags, origin=model_origin)
                     for f in compare_meaning(A, C, rng, "disk", True):
                         f["what"] = f"{label}: " + f["what"]
@@ -1447,6 +1500,39 @@ def run_history(case, drv):
         shutil.rmtree(root, ignore_errors=True)
     tags.append(f"steps-done={done}")
     return {"k": k, "mon": mon, "tags": tags, "nontrivial": done >= 1}
+
+
+def check_data_file(model, df, label, mon, tags):
+    """After write_model: the data file the written control stream names in $DATA (as read back through $INPUT) must hold
+    model.dataset on the columns that are not dropped."""
+    mine = model.dataset
+    if mine is None or df is None:
+        return
+    tags.append("data-file-checked")
+    di = model.datainfo
+    keep = [c for c in mine.columns if c in di.names and not di[c].drop]
+    theirs = [c for c in df.columns]
+    bad = None
+    if len(mine) != len(df):
+        bad = f"{len(df)} records in the file, {len(mine)} in model.dataset"
+    else:
+        for c in keep:
+            if c not in theirs:
+                bad = f"column {c} of model.dataset is not in the data the control stream reads ({theirs})"
+                break
+            try:
+                a = mine[c].astype(float).to_numpy()
+                b = df[c].astype(float).to_numpy()
+            except (TypeError, ValueError):
+                continue
+            import numpy as _np
+            if not _np.allclose(a, b, rtol=1e-9, atol=0, equal_nan=True):
+                i = int(_np.argmax(~_np.isclose(a, b, rtol=1e-9, atol=0, equal_nan=True)))
+                bad = f"column {c}, record {i}: model.dataset has {a[i]}, the file named by $DATA has {b[i]}"
+                break
+    if bad:
+        data_rec = model.internals.control_stream.get_records("DATA")
+        mon.append({"cls": "data-file-differs-from-dataset", "what": f"{label}: {bad}"})
 
 
 def check_routing(model, df, label, mon0, tags, origin=None):
@@ -1556,9 +1642,10 @@ def run_branch(case, drv):
                 m3 = pm.read_model(path)
                 C = meaning(m3)
             except Exception as e:
-                mon.append({"cls": reread_class(child, "disk"), "what": f"{label}: write_model/read_model raised {type(e).__name__}: {e}"[:400]})
+                mon.append({"cls": reread_class(child, "disk", origin), "what": f"{label}: write_model/read_model raised {type(e).__name__}: {e}"[:400]})
                 continue
             tags.append("disk-roundtrip")
+            check_data_file(child, m3.dataset, label, mon, tags)
             check_routing(child, m3.dataset, label, mon, tags, origin=origin)
             for f in compare_meaning(A, C, rng, "disk", True):
                 f["what"] = f"{label}: " + f["what"]
